@@ -291,6 +291,12 @@ struct W {
     excl_get: bool,
     excl_concat: bool,
     stress: Option<Arc<crate::props::c16s::StressFns>>,
+    plain: Option<Arc<crate::props::c16p::PlainFns>>,
+}
+
+/// another one in eight goes to the free-running engine for script-made lists of plain data (c16p.rs)
+fn is_plain(case: &Case) -> bool {
+    case.first().and_then(|c| c.first()).map(|b| b % 8 == 6).unwrap_or(false)
 }
 
 /// one case in eight goes to the free-running engine (c16s.rs)
@@ -312,6 +318,9 @@ impl WorkerState for W {
         if is_stress(case) {
             return crate::props::c16s::describe(&case[0][1..]);
         }
+        if is_plain(case) {
+            return crate::props::c16p::describe(&case[0][1..]);
+        }
         describe(&decode(case))
     }
 
@@ -324,6 +333,15 @@ impl WorkerState for W {
                 }
             }
             return crate::props::c16s::run(self.stress.as_ref().unwrap(), &case[0][1..], render);
+        }
+        if is_plain(case) {
+            if self.plain.is_none() {
+                match crate::props::c16p::build() {
+                    Ok(f) => self.plain = Some(Arc::new(f)),
+                    Err(e) => return Outcome::discard(format!("plain-data stress script rejected: {e}")),
+                }
+            }
+            return crate::props::c16p::run(self.plain.as_ref().unwrap(), &case[0][1..], render);
         }
         let mut cfg = decode(case);
         let mut excluded = 0u64;
@@ -502,6 +520,6 @@ impl Prop for C16P {
         CaseShape::streams(&[40, 40])
     }
     fn worker(&self, excl: &[String]) -> Box<dyn WorkerState> {
-        Box::new(W { excl_get: excl.iter().any(|e| e == "C16-F1"), excl_concat: excl.iter().any(|e| e == "C16-F2"), stress: None })
+        Box::new(W { excl_get: excl.iter().any(|e| e == "C16-F1"), excl_concat: excl.iter().any(|e| e == "C16-F2"), stress: None, plain: None })
     }
 }
